@@ -132,7 +132,7 @@ chk("C09", "model_checking",
 
 chk("C04", "fault_enumeration",
     "Decoders.tla models a decoding entry point fed by an adversary: starting from a valid object the adversary applies structure-"
-    "preserving mutations (32 kinds: tag, length form, value, delete, duplicate, splice, segmentation, nesting ...) at chosen TLV nodes "
+    "preserving mutations (33 kinds: tag, length form, value, delete, duplicate, splice, segmentation, nesting ...) at chosen TLV nodes "
     "and picks strict or relaxed mode; the decoder has exactly the outcomes value and error (no panic, no blow-up), every run plan "
     "terminates, and the capture/re-decode table must satisfy CapImpliesRed (an accessor never re-decodes in a stricter mode than the "
     "region was captured in). TLC enumerates every plan and table cell; each is replayed against all 11 entry points on real objects "
